@@ -52,6 +52,7 @@ def run(ctx):
     n = 160 if ctx.tier == 'quick' else 1600
     cases = [circuits.random_case(ctx.rng, max_wires=5, max_ops=12) for _ in range(n)]
     cases += [classical_case(ctx.rng) for _ in range(n // 4)]
+    cases += [sweep_case(ctx.rng) for _ in range(n // 3)]
     evaluate(ctx, cirq, mods, cases)
 
 
@@ -60,8 +61,20 @@ def classical_case(rng):
     n = rng.randint(2, 5)
     ops = []
     for _ in range(rng.randint(1, 10)):
-        fam = rng.choice(['XPow', 'CXPow', 'SwapPow', 'CCXPow', 'Perm', 'Perm'])
-        if fam == 'Perm':
+        fam = rng.choice(['XPow', 'CXPow', 'SwapPow', 'CCXPow', 'Perm', 'Perm', 'Ctrl', 'Ctrl'])
+        if fam == 'Ctrl':
+            sub = gates.G(rng.choice(['XPow', 'SwapPow']), dict(e=1.0, s=0.0), (2,)) 
+            if sub.fam == 'SwapPow':
+                sub = gates.G('SwapPow', dict(e=1.0, s=0.0), (2, 2))
+            nc = rng.choice([1, 1, 2])
+            if rng.random() < 0.3 and nc == 2:
+                import itertools
+                allv = list(itertools.product(range(2), repeat=2))
+                cv = ('sop', [list(t) for t in rng.sample(allv, rng.randint(1, 3))])
+            else:
+                cv = ('pos', [rng.choice([[0], [1], [0, 1]]) for _ in range(nc)])
+            g = gates.G('Ctrl', dict(sub=sub, cdims=[2] * nc, cv=cv, bools=False, as_sets=False), (2,) * nc + sub.shape)
+        elif fam == 'Perm':
             k = rng.randint(2, min(3, n))
             perm = list(range(k))
             rng.shuffle(perm)
@@ -74,6 +87,27 @@ def classical_case(rng):
         ops.append(circuits.Op(g, ws))
     c = circuits.Case([2] * n, ops, ['E'] * len(ops))
     c.classical = True
+    return c
+
+
+def sweep_case(rng):
+    """An entangling numeric prefix, then a symbolic operation, then a suffix rich in exponent-1 SWAP/CX/X (the operations with
+    dedicated act_on strategies); simulated for three sweep points, every point compared."""
+    n = rng.randint(2, 4)
+
+    def op(fams, e1):
+        for _ in range(30):
+            fam = rng.choice(fams)
+            g = gates.draw(rng, fam)
+            if e1 and fam in gates.EIG and rng.random() < 0.7:
+                g.p['e'], g.p['s'] = 1.0, 0.0
+            if len(g.shape) <= n and all(d == 2 for d in g.shape):
+                return circuits.Op(g, rng.sample(range(n), len(g.shape)))
+    pre = [op(['HPow', 'CXPow', 'YPow', 'CZPow', 'XPow', 'ISwapPow'], rng.random() < 0.5) for _ in range(rng.randint(2, 5))]
+    sym = op(['XPow', 'YPow', 'ZPow', 'CZPow'], False)
+    suf = [op(['SwapPow', 'SwapPow', 'CXPow', 'XPow', 'ZPow', 'HPow', 'YPow', 'CZPow'], True) for _ in range(rng.randint(2, 5))]
+    c = circuits.Case([2] * n, pre + [sym] + suf, ['E'] * (len(pre) + 1 + len(suf)))
+    c.sweep_index = len(pre)
     return c
 
 
@@ -106,6 +140,28 @@ def entry_points(ctx, cirq, mods, case):
             full = np.kron(full, v)
         return vs, full
 
+    if getattr(case, 'sweep_index', None) is not None:
+        import sympy
+        qs2 = case.qids(cirq)
+        k = case.sweep_index
+        c2 = cirq.Circuit()
+        for i, o in enumerate(case.ops):
+            g = (gates.EIG[o.g.fam][1](cirq)(exponent=sympy.Symbol('t'), global_shift=o.g.p['s']) if i == k else o.g.cirq_gate(cirq, mods))
+            c2.append(g.on(*[qs2[w] for w in o.wires]))
+        order = order_perm(rng, n)
+        pts = [round(rng.uniform(-1, 1), 3), case.ops[k].g.p['e'], round(rng.uniform(-1, 1), 3)]
+        rng.shuffle(pts)
+        sim = cirq.Simulator(dtype=np.complex128, split_untangled_states=rng.random() < 0.7)
+        k0 = rng.randrange(dim)
+        rs = sim.simulate_sweep(c2, params=cirq.Points('t', pts), qubit_order=[qs2[w] for w in order], initial_state=k0)
+        for pt, r in zip(pts, rs):
+            import copy
+            cc = copy.copy(case)
+            cc.ops = list(case.ops)
+            gk = gates.G(case.ops[k].g.fam, dict(case.ops[k].g.p, e=pt), case.ops[k].g.shape)
+            cc.ops[k] = circuits.Op(gk, case.ops[k].wires)
+            out.append((f'Simulator.simulate_sweep[point {pts.index(pt)} of 3]', order, basis_vec(dim, k0), np.asarray(r.final_state_vector), 'vec', TOL128, cc))
+        return out
     if getattr(case, 'classical', False):
         order = order_perm(rng, n)
         k = rng.randrange(dim)
@@ -215,12 +271,14 @@ def evaluate(ctx, cirq, mods, cases):
                               dict(kind='case', case=case.key(), error=traceback.format_exc()[-1500:]))
                 continue
             defined = {}
-            for (name, order, init, result, kind, tol) in eps:
-                okey = tuple(order)
+            for ep in eps:
+                (name, order, init, result, kind, tol) = ep[:6]
+                ecase = ep[6] if len(ep) > 6 else case
+                okey = (tuple(order), id(ecase))
                 if okey not in defined:
                     defined[okey] = f'c{gi}_{len(defined)}'
-                    lines.append(f'Definition ops_{defined[okey]} : list (gop (K:=FC)) := {case.coq_ops(order)}.')
-                    lines.append(f'Definition sh_{defined[okey]} : list nat := {case.coq_shape(order)}.')
+                    lines.append(f'Definition ops_{defined[okey]} : list (gop (K:=FC)) := {ecase.coq_ops(order)}.')
+                    lines.append(f'Definition sh_{defined[okey]} : list nat := {ecase.coq_shape(order)}.')
                 d = defined[okey]
                 T = flt(tol)
                 if kind == 'unitary':
